@@ -29,6 +29,7 @@ package blockchain
 //@   ensures [miss] !ok ==> block == nil && !has(chain.blocks, hash)
 //@   ensures [oracle] ok == (old(has(chain.blocks, hash)) || core.avail(hash))
 //@   ensures [which] ok ==> block == (old(has(chain.blocks, hash)) ? old(chain.blocks[hash]) : core.fetched(hash))
+//@   ensures [stable] forall h hotstuff.Hash :: getok(chain, h) == old(getok(chain, h)) && getblk(chain, h) == old(getblk(chain, h))
 //@   ensures [grow] forall h hotstuff.Hash :: h != hash ==> has(chain.blocks, h) == old(has(chain.blocks, h)) && chain.blocks[h] == old(chain.blocks[h])
 //@   modifies chain.blocks[*], chain.blockAtHeight[*], chain.pendingFetch[*], chain.eventLoop.handlers[*], alloc
 
@@ -46,13 +47,25 @@ package blockchain
 //@ pred hashdet() = forall b1 *hotstuff.Block, b2 *hotstuff.Block :: b1 != nil && b2 != nil && b1.hash == b2.hash ==> b1.view == b2.view && b1.parent == b2.parent
 //@ pred fetchwf() = forall h hotstuff.Hash :: core.avail(h) ==> core.fetched(h) != nil && core.fetched(h).hash == h
 
+// Ancestry only depends on what Get yields and on the blocks' own fields.
+//@ lemma anc_frame(c *Blockchain, b *hotstuff.Block, t *hotstuff.Block) property C13
+//@   opt twostate
+//@   requires forall h hotstuff.Hash :: getok(c, h) == old(getok(c, h)) && getblk(c, h) == old(getblk(c, h))
+//@   requires forall x *hotstuff.Block :: x.hash == old(x.hash) && x.view == old(x.view) && x.parent == old(x.parent)
+//@   ensures anc(c, b, t) == old(anc(c, b, t))
+//@   decreases b.view
+//@   proof if b.hash != t.hash && b.view > t.view && getok(c, b.parent) && getblk(c, b.parent).view < b.view { use anc_frame(c, getblk(c, b.parent), t) }
+
 //@ func (*Blockchain).Extends property C13
 //@   requires block != nil && target != nil && binv(chain) && bmaps(chain) && chain.sender != nil && chain.eventLoop != nil
 //@   requires [views-grow] grows(chain)
 //@   requires [collision-resistance] hashdet()
 //@   requires [fetch-wf] fetchwf()
 //@   ensures [exact] result == old(anc(chain, block, target))
+//@   ensures [exact-post] result == anc(chain, block, target)
+//@   ensures [stable] forall h hotstuff.Hash :: getok(chain, h) == old(getok(chain, h)) && getblk(chain, h) == old(getblk(chain, h))
 //@   ensures [inv] binv(chain) && bmaps(chain)
+//@   use return :: anc_frame(chain, block, target)
 //@   loop 0 invariant [inv] binv(chain) && bmaps(chain)
 //@   loop 0 invariant [cur] ok ==> current != nil
 //@   loop 0 invariant [frame] forall h hotstuff.Hash :: getok(chain, h) == old(getok(chain, h)) && getblk(chain, h) == old(getblk(chain, h))
